@@ -425,3 +425,51 @@ pub fn shrink(cfg: &RunCfg, ops: &[Op], mode: &str, prop: &str, clause: &str) ->
 pub fn gen_rng(seed: u64) -> Rng {
     Rng::new(mix(seed, 0x5C4E_D0))
 }
+
+/// Configuration simplification after op-list minimisation: drop the parallel session, use the
+/// default backend everywhere, empty prologue - each kept only if the same class persists.
+pub fn shrink_cfg(cfg: &RunCfg, ops: &[Op], mode: &str, prop: &str, clause: &str) -> (RunCfg, Vec<Op>) {
+    let has = |c: &RunCfg, o: &[Op]| -> bool {
+        let e = exec_mode(c, o, mode);
+        e.viol.iter().any(|v| v.prop == prop && v.clause == clause)
+    };
+    let mut cur_cfg = cfg.clone();
+    let mut cur_ops = ops.to_vec();
+    let node_of = |op: &Op| -> Option<u8> {
+        match op {
+            Op::Write { node, .. } | Op::Read { node, .. } | Op::SetPsk { node, .. } | Op::Convert { node, .. } | Op::SetRecvNonce { node, .. } | Op::SetSendNonce { node, .. } | Op::Rekey { node, .. } | Op::Drop { node, .. } | Op::Dup { node, .. } | Op::Delay { node, .. } | Op::Query { node } => Some(*node),
+            Op::Epilogue => None,
+        }
+    };
+    if cur_cfg.nodes.len() > 2 {
+        let uses_other = cur_ops.iter().any(|op| matches!(op, Op::Read { src: Src::Hist { from, .. }, .. } if *from >= 2));
+        if !uses_other {
+            let mut c = cur_cfg.clone();
+            c.nodes.truncate(2);
+            let o: Vec<Op> = cur_ops.iter().filter(|op| node_of(op).map_or(true, |n| n < 2)).cloned().collect();
+            if has(&c, &o) {
+                cur_cfg = c;
+                cur_ops = o;
+            }
+        }
+    }
+    {
+        let mut c = cur_cfg.clone();
+        for n in c.nodes.iter_mut() {
+            n.backend = Backend::Default;
+        }
+        if has(&c, &cur_ops) {
+            cur_cfg = c;
+        }
+    }
+    {
+        let mut c = cur_cfg.clone();
+        for n in c.nodes.iter_mut() {
+            n.prologue.clear();
+        }
+        if has(&c, &cur_ops) {
+            cur_cfg = c;
+        }
+    }
+    (cur_cfg, cur_ops)
+}
